@@ -99,7 +99,12 @@ Record slot := {
   s_coll : cstate;
   s_consumers : list (str * N); (* consumer tag -> queue id *)
   s_ret : option N;
-  s_conf : option N }.
+  s_conf : option N;
+  s_ncons : N }.                (* consumer queues created so far on this slot (naming only) *)
+
+(* Consumer queues are named after the slot's reply queue and a per-slot counter, so that a
+   client can name them from what it receives on that reply queue alone. *)
+Definition cons_qid (reply k : N) : N := 4294967296 + reply * 1048576 + k.
 
 Record ch0slot := {
   z_mail : list msg;
@@ -172,19 +177,27 @@ Definition init_core (channel_max bound : N) : core :=
      c_registered := true;
      c_bound := bound |}.
 
-(* dropping the Channel0Slot: its senders disappear *)
+(* the listener sender a mailbox message carries, if any *)
+Definition msg_q (m : msg) : option N :=
+  match m with MsgSetReturn (Some q) | MsgSetConfirm (Some q) => Some q | _ => None end.
+
+(* dropping the Channel0Slot: its senders disappear, and so do the ones still waiting in
+   its set-blocked queue *)
 Definition drop_ch0 (c : core) : core :=
   match c_ch0 c with
   | None => c
   | Some z =>
-      set_ch0 (set_qs c (drop_tx_opt (z_blocked z) (drop_tx (z_alloc_rep z) (drop_tx (z_reply z) (c_qs c)))))
+      set_ch0 (set_qs c (fold_left (fun m q => drop_tx q m) (z_setb z)
+                 (drop_tx_opt (z_blocked z) (drop_tx (z_alloc_rep z) (drop_tx (z_reply z) (c_qs c))))))
               None
   end.
 
-(* dropping a ChannelSlot value *)
+(* dropping a ChannelSlot value: its senders, and the listener senders still waiting in
+   its mailbox *)
 Definition drop_slot_qs (s : slot) (m : qs) : qs :=
-  drop_tx_opt (s_conf s) (drop_tx_opt (s_ret s)
-    (fold_left (fun m '(_, q) => drop_tx q m) (s_consumers s) (drop_tx (s_reply s) m))).
+  fold_left (fun m x => drop_tx_opt (msg_q x) m) (s_mail s)
+    (drop_tx_opt (s_conf s) (drop_tx_opt (s_ret s)
+      (fold_left (fun m '(_, q) => drop_tx q m) (s_consumers s) (drop_tx (s_reply s) m)))).
 
 (* connection_state::send *)
 Definition send (q : N) (it : qitem) (c : core) : outcome * core :=
@@ -273,19 +286,23 @@ Fixpoint remove_tag (tag : str) (l : list (str * N)) : list (str * N) :=
 
 Definition with_coll (s : slot) (st : cstate) : slot :=
   {| s_mail := s_mail s; s_mail_tx := s_mail_tx s; s_reply := s_reply s; s_coll := st;
-     s_consumers := s_consumers s; s_ret := s_ret s; s_conf := s_conf s |}.
+     s_consumers := s_consumers s; s_ret := s_ret s; s_conf := s_conf s; s_ncons := s_ncons s |}.
 Definition with_consumers (s : slot) (l : list (str * N)) : slot :=
   {| s_mail := s_mail s; s_mail_tx := s_mail_tx s; s_reply := s_reply s; s_coll := s_coll s;
-     s_consumers := l; s_ret := s_ret s; s_conf := s_conf s |}.
+     s_consumers := l; s_ret := s_ret s; s_conf := s_conf s; s_ncons := s_ncons s |}.
+Definition with_new_consumer (s : slot) (tag : str) (q : N) : slot :=
+  {| s_mail := s_mail s; s_mail_tx := s_mail_tx s; s_reply := s_reply s; s_coll := s_coll s;
+     s_consumers := (tag, q) :: s_consumers s; s_ret := s_ret s; s_conf := s_conf s;
+     s_ncons := s_ncons s + 1 |}.
 Definition with_ret (s : slot) (q : option N) : slot :=
   {| s_mail := s_mail s; s_mail_tx := s_mail_tx s; s_reply := s_reply s; s_coll := s_coll s;
-     s_consumers := s_consumers s; s_ret := q; s_conf := s_conf s |}.
+     s_consumers := s_consumers s; s_ret := q; s_conf := s_conf s; s_ncons := s_ncons s |}.
 Definition with_conf (s : slot) (q : option N) : slot :=
   {| s_mail := s_mail s; s_mail_tx := s_mail_tx s; s_reply := s_reply s; s_coll := s_coll s;
-     s_consumers := s_consumers s; s_ret := s_ret s; s_conf := q |}.
+     s_consumers := s_consumers s; s_ret := s_ret s; s_conf := q; s_ncons := s_ncons s |}.
 Definition with_mail (s : slot) (l : list msg) : slot :=
   {| s_mail := l; s_mail_tx := s_mail_tx s; s_reply := s_reply s; s_coll := s_coll s;
-     s_consumers := s_consumers s; s_ret := s_ret s; s_conf := s_conf s |}.
+     s_consumers := s_consumers s; s_ret := s_ret s; s_conf := s_conf s; s_ncons := s_ncons s |}.
 
 (* completed content is dispatched by kind (Header / Body arms) *)
 Definition dispatch (n : N) (s : slot) (k : ckind) (props : N) (body : bytes) (c : core)
@@ -349,9 +366,9 @@ Definition process_method (n : N) (m : smethod) (dbg : str) (c : core) : outcome
         match lookup_tag tag (s_consumers s) with
         | Some _ => (OErr (EDuplicateConsumerTag n tag), c)
         | None =>
-            let q := c_nextq c in
-            let c1 := set_nextq (set_qs c (ainsert q (new_queue None) (c_qs c))) (q + 1) in
-            let c2 := set_slot c1 n (with_consumers s ((tag, q) :: s_consumers s)) in
+            let q := cons_qid (s_reply s) (s_ncons s) in
+            let c1 := set_qs c (ainsert q (new_queue None) (c_qs c)) in
+            let c2 := set_slot c1 n (with_new_consumer s tag q) in
             send (s_reply s) (IReplyConsumeOk tag q) c2
         end)
   | MCancel tag nowait =>
@@ -581,7 +598,7 @@ Fixpoint set_blocked (fuel : nat) (c : core) : outcome * core :=
 
 Definition new_slot (reply : N) : slot :=
   {| s_mail := []; s_mail_tx := true; s_reply := reply; s_coll := CNone;
-     s_consumers := []; s_ret := None; s_conf := None |}.
+     s_consumers := []; s_ret := None; s_conf := None; s_ncons := 0 |}.
 
 Definition res_to_item (r : res) : qitem :=
   match r with
